@@ -93,6 +93,12 @@ class Interp:
                 raise Interp._Return(self.ev(st.value, env, fi), st)
             elif isinstance(st, ast.Assign) and len(st.targets) == 1 and isinstance(st.targets[0], ast.Name):
                 env[st.targets[0].id] = self.ev(st.value, env, fi)
+            elif isinstance(st, ast.Assign) and len(st.targets) == 1 and isinstance(st.targets[0], ast.Tuple) and all(isinstance(t_, ast.Name) for t_ in st.targets[0].elts):
+                v = self.ev(st.value, env, fi)
+                if not isinstance(v, (list, tuple)) or len(v) != len(st.targets[0].elts):
+                    raise Undecidable("tuple assignment of a non-sequence")
+                for t_, x_ in zip(st.targets[0].elts, v):
+                    env[t_.id] = x_
             elif isinstance(st, ast.If):
                 if self.truth(self.ev(st.test, env, fi)):
                     self._block(st.body, env, fi)
@@ -134,6 +140,12 @@ class Interp:
             if r.kind == "external":
                 return ("external", r.val)
             if r.kind == "value":
+                # module-level constants: a set of annotation classes, a tuple of classes (for isinstance), literals
+                if isinstance(r.val, (ast.Set, ast.Tuple, ast.List, ast.Constant)):
+                    try:
+                        return Interp(self.idx, r.mod).ev(r.val, {}, None)
+                    except Undecidable:
+                        pass
                 return ("pattern", r.val, r.mod)
             raise Undecidable(f"name {e.id} -> {r.kind}")
         if isinstance(e, ast.Attribute):
@@ -288,6 +300,10 @@ class Interp:
             env = dict(cenv)
             env.update(zip([a.arg for a in node.args.args], args))
             return self.exec_block(node.body, env, fi)
+        if isinstance(f, tuple) and f[0] == "external" and f[1] in ("operator.and_", "operator.or_", "operator.sub", "operator.xor") and len(args) == 2 \
+                and all(isinstance(a_, (set, frozenset)) for a_ in args):
+            a_, b_ = frozenset(args[0]), frozenset(args[1])
+            return {"operator.and_": a_ & b_, "operator.or_": a_ | b_, "operator.sub": a_ - b_, "operator.xor": a_ ^ b_}[f[1]]
         if isinstance(f, tuple) and f[0] == "func":
             callee = f[1]
             if getattr(callee, "rule", None) is not None:
